@@ -113,6 +113,13 @@ class PathCtx:
         self.consts.extend([T.len, T.tid])
         return T
 
+    def declare_esc_free(self, T):
+        """precondition: the text contains no ESC character (as a flag for the rope model and as a fact about its
+        character array)"""
+        T.escfree = True
+        j = z3.Int('j!esc')
+        self.assume(z3.ForAll([j], z3.Select(T.chars, j) != 27, patterns=[z3.Select(T.chars, j)]))
+
     def axiom_once(self, key, mk):
         if key not in self.axiom_keys:
             self.axiom_keys.add(key)
